@@ -18,7 +18,12 @@ def run(chk):
     with_config(t, feats)
     r = tv("Trace_Decode", "Trace_Decode.cfg", t, reset_events=("Decode",), prefix_events=("Config",), shards=12, tag="C14")
     chk.add_tv("classify", r)
-    for rj in r["rejects"]:
+    # the same exhaustive sweep over the 4096 numbers in the overflow-checks / debug-assertions profile
+    t2 = record("classify", chk.path("cls-relchk.ndjson"), profile="relchk", seed=chk.seed + 17)
+    with_config(t2, feats)
+    r2 = tv("Trace_Decode", "Trace_Decode.cfg", t2, reset_events=("Decode",), prefix_events=("Config",), shards=12, tag="C14-relchk")
+    chk.add_tv("classify[relchk]", r2)
+    for rj in r["rejects"] + r2["rejects"]:
         if recorder_level_reject(chk, rj):
             continue
         d = rj["diag"]
